@@ -217,6 +217,6 @@ def run_interior(desc, ctx):
 
 
 SUBS = [
-    Sub("solve_lp", run_simplex, strategy=lambda tier: lps(tier), quick=1000, thorough=8000, workers_quick=4),
-    Sub("solve_lp_interior", run_interior, strategy=lambda tier: lps(tier), quick=500, thorough=4000, workers_quick=4),
+    Sub("solve_lp", run_simplex, strategy=lambda tier: lps(tier), quick=2000, thorough=8000, workers_quick=8),
+    Sub("solve_lp_interior", run_interior, strategy=lambda tier: lps(tier), quick=1000, thorough=4000, workers_quick=8),
 ]
